@@ -27,6 +27,27 @@ def v2_accepts(v):
     return v in ('PASS', 'ALLOW_BYPASS')
 
 
+RAISES = {'raise:TimeoutError': TimeoutError, 'raise:CancelledError': asyncio.CancelledError, 'raise:ValueError': ValueError}
+
+
+def is_raise(v):
+    return isinstance(v, str) and v.startswith('raise:')
+
+
+def accepts(fe, v):
+    """does this verdict accept?  a validator that gives up by raising has not accepted anything"""
+    if is_raise(v):
+        return False
+    return v2_accepts(v) if fe == 'v2' else bool(v)
+
+
+def give(fe, v):
+    """what the harness validator does at its end: return the verdict, or raise"""
+    if is_raise(v):
+        raise RAISES[v]('validator gave up')
+    return to_v2(v) if fe == 'v2' else v
+
+
 def to_v2(v):
     return getattr(types.ValidResult, v) if isinstance(v, str) else v
 
@@ -40,17 +61,34 @@ def check_data_side(ctx, rng):
                 for t_data in (0, 10, L - 1):
                     for rel in (None, -1, 0, 1, 50, 5000):
                         lat = 0 if rel is None else max(0, L - t_data + rel)
-                        cases.append((fe, verdict, L, t_data, lat))
+                        cases.append((fe, verdict, L, t_data, lat, 0))
+    # validators that give up by raising instead of returning a verdict
+    special = []
+    for fe in ('v2', 'v1'):
+        for verdict in RAISES:
+            for (t_data, lat) in ((10, 0), (10, 20), (90, 50)):
+                special.append((fe, verdict, 100, t_data, lat, 0))
+    # current front-end: express() sends at once and returns a coroutine; the caller starts awaiting it later (but before
+    # the deadline).  The deadline is still send time + lifetime.
+    for verdict in ('PASS', 'ALLOW_BYPASS', 'FAIL'):
+        for L in (100, 1000):
+            for await_at in (L // 4, L // 2, L - 1, L + 5, L + 60):       # the last two: first awaited after the deadline
+                for (t_data, rel) in ((5, None), (L - 10, -1), (L - 10, 1), (L - 10, await_at // 2), (L - 1, await_at - 1), (5, 5000)):
+                    lat = 0 if rel is None else max(0, L - t_data + rel)
+                    special.append(('v2', verdict, L, t_data, lat, await_at))
     if ctx.quick:
         rng.shuffle(cases)
-        cases = cases[:220]
+        rs = [c for c in special if is_raise(c[1])]
+        aw = [c for c in special if not is_raise(c[1])]
+        rng.shuffle(aw)
+        cases = cases[:220] + rs + aw[:60]
     else:
-        cases = [c for i, c in enumerate(cases) if i % ctx.nshards == ctx.shard]
-    for (fe, verdict, L, t_data, lat) in cases:
-        run_data_case(ctx, fe, verdict, L, t_data, lat)
+        cases = [c for i, c in enumerate(cases + special) if i % ctx.nshards == ctx.shard]
+    for (fe, verdict, L, t_data, lat, await_at) in cases:
+        run_data_case(ctx, fe, verdict, L, t_data, lat, await_at)
 
 
-def run_data_case(ctx, fe, verdict, L, t_data, lat):
+def run_data_case(ctx, fe, verdict, L, t_data, lat, await_at=0):
     obs = {}
     vlog = []
     name = [C(b'd'), C(b'x')]
@@ -67,7 +105,7 @@ def run_data_case(ctx, fe, verdict, L, t_data, lat):
                 if lat:
                     await asyncio.sleep(lat / 1000)
                 vlog.append(('ret', S.now_ms()))
-                return to_v2(verdict)
+                return give(fe, verdict)
             coro = the_app.express(name, validator, lifetime=L, nonce=1)
         else:
             async def validator(n, sig):
@@ -75,10 +113,12 @@ def run_data_case(ctx, fe, verdict, L, t_data, lat):
                 if lat:
                     await asyncio.sleep(lat / 1000)
                 vlog.append(('ret', S.now_ms()))
-                return verdict
+                return give(fe, verdict)
             coro = the_app.express_interest(name, validator=validator, lifetime=L, nonce=1)
 
         async def waiter():
+            if await_at:
+                await S.sleep_until_ms(await_at)
             try:
                 r = await coro
                 obs['res'] = ('data', r, S.now_ms())
@@ -97,19 +137,27 @@ def run_data_case(ctx, fe, verdict, L, t_data, lat):
         await asyncio.wait_for(main_task, 5)
 
     S = vtime.run(main)
-    w = {'frontend': fe, 'verdict': repr(verdict), 'lifetime': L, 'data_at': t_data, 'validator_latency': lat}
+    w = {'frontend': fe, 'verdict': repr(verdict), 'lifetime': L, 'data_at': t_data, 'validator_latency': lat, 'awaited_from': await_at}
     if S.result != 'ok':
         ctx.report(f'data-scenario-{S.result}:{fe}', f'{S.error!r}', w)
+        return
+    kind, val, t = obs.get('res', ('open', None, None))
+    tv = t_data + lat
+    accept = accepts(fe, verdict)
+    rel = 'before' if tv < L else 'at' if tv == L else 'after'
+    ctx.case(('data', fe, repr(verdict), L, t_data, lat, await_at), nontrivial=True, sample=w if ctx.evaluations % 60 == 0 else None)
+    ctx.event(f'data-{rel}-deadline')
+    if await_at:
+        ctx.event('data-awaited-later-than-expressed')
+    if is_raise(verdict):
+        # what an application sees when its own validator raises is outside the statement; the payload as a result is not
+        ctx.event('data-validator-raised')
+        if kind == 'data':
+            ctx.report(f'payload-returned-although-validator-raised:{fe}', f'Data returned although the validator gave up with {verdict}', w)
         return
     for le in S.sentinel.all():
         ex = le.get('exception')
         ctx.report(f'data-background-error:{fe}:{type(ex).__name__ if ex else "?"}', f'{le.get("repr")}', w)
-    kind, val, t = obs.get('res', ('open', None, None))
-    tv = t_data + lat
-    accept = v2_accepts(verdict) if fe == 'v2' else bool(verdict)
-    rel = 'before' if tv < L else 'at' if tv == L else 'after'
-    ctx.case(('data', fe, repr(verdict), L, t_data, lat), nontrivial=True, sample=w if ctx.evaluations % 60 == 0 else None)
-    ctx.event(f'data-{rel}-deadline')
     if kind == 'data':
         ctx.event('payload-returned')
         if not accept:
@@ -271,6 +319,7 @@ def check_interest_side(ctx, rng):
     for fe in ('v2', 'v1'):
         verdicts = V2_VERDICTS if fe == 'v2' else V1_VERDICTS
         configs = [('none', None, 0)] + [('v', v, 0) for v in verdicts] + [('v', verdicts[0], 30), ('v', verdicts[2], 30)]
+        configs += [('v', r, 0) for r in RAISES] + [('v', 'raise:TimeoutError', 30)]
         matrix = []
         for app in ('absent', 'empty', 'nonempty'):
             for sk in ('unsigned', 'digest', 'hmac', 'ecdsa'):
@@ -316,7 +365,7 @@ def run_interest_batch(ctx, rng, fe, configs, matrix):
                         if lat:
                             await asyncio.sleep(lat / 1000)
                         vlog.append((ci, key, 'ret', S.now_ms(), verdict))
-                        return to_v2(verdict)
+                        return give(fe, verdict)
                 else:
                     async def v(n, sig):
                         key = tuple(bytes(x) for x in n)
@@ -324,7 +373,7 @@ def run_interest_batch(ctx, rng, fe, configs, matrix):
                         if lat:
                             await asyncio.sleep(lat / 1000)
                         vlog.append((ci, key, 'ret', S.now_ms(), verdict))
-                        return verdict
+                        return give(fe, verdict)
                 return v
             val = mk_validator() if kind == 'v' else None
             if fe == 'v2':
@@ -354,6 +403,8 @@ def run_interest_batch(ctx, rng, fe, configs, matrix):
                                         {'frontend': fe, 'wire': wire}))
                 await asyncio.sleep(0.05)
                 for le in S.sentinel.all()[nerr:]:
+                    if is_raise(verdict):
+                        continue        # the validator itself raised: what becomes of that exception is outside the statement
                     ex = le.get('exception')
                     res['viol'].append((f'interest-background-error:{fe}:{type(ex).__name__ if ex else "?"}', f'{le.get("repr")}',
                                         {'frontend': fe, 'wire': wire, 'app': app, 'signer': sk, 'digest': dm}))
@@ -400,12 +451,12 @@ def run_interest_batch(ctx, rng, fe, configs, matrix):
         else:
             must_validate = ref['sig_info'] is not None
         if h and must_validate:
-            ok_rets = [x for x in vr if x[1] <= h[0][1] and (v2_accepts(x[2]) if fe == 'v2' else bool(x[2]))
+            ok_rets = [x for x in vr if x[1] <= h[0][1] and accepts(fe, x[2])
                        and (x[0] == h[0][0] or x[0] == 'default')]       # the validator of the handler that was invoked
             if kind == 'none' and fe == 'v2':
                 ctx.report('delivered-without-validator:v2', 'parameterised/signed Interest delivered although no validator is attached', w)
             elif not ok_rets:
-                if vr and not any((v2_accepts(x[2]) if fe == 'v2' else bool(x[2])) for x in vr):
+                if vr and not any(accepts(fe, x[2]) for x in vr):
                     ctx.report(f'delivered-despite-verdict:{fe}', f'Interest reached its handler although the validator said {verdict!r}', w)
                 elif vr:
                     ctx.report(f'delivered-before-validation-finished:{fe}', 'handler invoked before the validator returned', w)
@@ -419,7 +470,9 @@ def run_interest_batch(ctx, rng, fe, configs, matrix):
                 ctx.event('observation:v1-validator-called-for-unsigned')
         if not h:
             ctx.event('dropped')
-            if digest_ok and ((kind == 'v' and (v2_accepts(verdict) if fe == 'v2' else bool(verdict))) or (fe == 'v1' and not must_validate)):
+            if is_raise(verdict):
+                ctx.event('dropped-after-validator-raised')
+            if digest_ok and ((kind == 'v' and accepts(fe, verdict)) or (fe == 'v1' and not must_validate)):
                 ctx.event('observation:accepted-but-not-delivered')
 
 
@@ -529,9 +582,9 @@ def run(ctx):
     check_validator_in_force(ctx, rng)
     if ctx.shard == 0:
         check_interest_side(ctx, rng)
-    need = ['validator-in-force-history', 'multi-interest-data', 'data-before-deadline', 'data-after-deadline', 'data-at-deadline', 'payload-returned', 'validation-failure', 'timeout']
+    need = ['validator-in-force-history', 'multi-interest-data', 'data-awaited-later-than-expressed', 'data-validator-raised', 'data-before-deadline', 'data-after-deadline', 'data-at-deadline', 'payload-returned', 'validation-failure', 'timeout']
     if ctx.shard == 0:
-        need += ['interest-needs-validation', 'interest-plain', 'validated-then-delivered', 'dropped']
+        need += ['interest-needs-validation', 'interest-plain', 'validated-then-delivered', 'dropped', 'dropped-after-validator-raised']
     for k in need:
         ctx.need_event(k)
     if ctx.events.get('observation:accepted-but-not-delivered'):
